@@ -119,11 +119,11 @@ Print Assumptions C04_clone_independent.
 (* one nx.Graph per id, after ANY history of well-formed operations: the clone under an id that holds no nodes is
    the relabelled, re-stamped copy of the source's whole nx.Graph.  (The two structural facts of nx.Graph - links
    join stored nodes, one link per pair - are invariants of this store too: DWf_run.)  Onto an id that HOLDS
-   nodes the clone is skipped (C05_disjoint_clone_live_skips): known finding, proposed fix C05-3. *)
+   nodes the clone is skipped (C05_disjoint_clone_live_skips): known finding (deliberate in the code; C05-3 not landed). *)
 Theorem C04_clone_same_disjoint : forall ops g g2,
   (forall o, In o ops -> wf_op o = true) ->
   let d := drun ops init_dstore in
-  gn (dget d g2) = [] -> existsb node_id_missing (gn (dget d g)) = false ->
+  gn (dget d g) <> [] -> gn (dget d g2) = [] -> existsb node_id_missing (gn (dget d g)) = false ->
   snd (d_clone d g g2) = Ok RUnit /\
   dget (fst (d_clone d g g2)) g2 =
     mkG (stamp g2 (relabel_nodes (gn (dget d g)) 1)) (map (relabel_edge (gn (dget d g)) 1) (ge (dget d g))).
